@@ -1,2 +1,2 @@
-import NipyVerif.Model.C20
-def main : IO Unit := NipyVerif.driverLoop NipyVerif.C20.run
+import NipyVerif.Model.C20K
+def main : IO Unit := NipyVerif.driverLoop NipyVerif.C20.runK
